@@ -42,6 +42,7 @@ pub fn profile() -> Profile {
     p.unused_structs = (0, 1);
     p.vin_as_storage = 2;
     p.out_as_storage = 1;
+    p.keyword_names = 2;
     p
 }
 
